@@ -228,7 +228,7 @@ def _defs(ctx: Ctx, item):
     for key in keys:
         d = db.by_key[key]
 
-        def check(p, fmt, src, prio, d=d):
+        def check(p, fmt, src, prio, p_next=None, d=d):
             payload, nbytes, classes = p
             ctx.count()
             dec0 = NMEA2000Decoder()
@@ -260,11 +260,33 @@ def _defs(ctx: Ctx, item):
                 if g.id != m.id or [(f.id, f.value, f.raw_value) for f in g.fields] != [(f.id, f.value, f.raw_value) for f in m.fields]:
                     diff = [f.id for f, h in zip(g.fields, m.fields) if (f.value, f.raw_value) != (h.value, h.raw_value)]
                     out.append((f"C03|defs|{fmt}|values|{d.key}", f"fields changed by encode/decode: {diff}", case))
+            # a periodic sender keeps ONE message object, writes the new values into it and sends it again through the same encoder
+            if p_next is not None and not out:
+                try:
+                    m2 = NMEA2000Decoder().decode_basic_string(gen.basic_string(d.pgn, p_next[0], p_next[1], src=src, prio=prio), already_combined=True)
+                except Exception:
+                    m2 = None
+                if m2 is not None and m2.id == m.id and len(m2.fields) == len(m.fields):
+                    for f_old, f_new in zip(m.fields, m2.fields):
+                        f_old.value, f_old.raw_value = f_new.value, f_new.raw_value
+                    try:
+                        _, fr_again = frames_of(enc, fmt, m)
+                        _, fr_fresh = frames_of(NMEA2000Encoder(), fmt, m2)
+                    except ValueError:
+                        fr_again = fr_fresh = None
+                    if fr_again is not None:
+                        ctx.klass("defs_in_place_update")
+                        d_again = b"".join(f[1][2:] if i == 0 else f[1][1:] for i, f in enumerate(fr_again))
+                        d_fresh = b"".join(f[1][2:] if i == 0 else f[1][1:] for i, f in enumerate(fr_fresh))
+                        if d_again != d_fresh:
+                            out.append((f"C03|defs|{fmt}|in-place-update|{d.key}", f"message object updated in place and sent again through the same encoder: frames "
+                                        f"carry {d_again.hex()[:60]}, a new message with these values is sent as {d_fresh.hex()[:60]}",
+                                        dict(case, next_hex=p_next[0].to_bytes(p_next[1], "little").hex())))
             return out
 
         from hypothesis import strategies as st
         ctx.hyp(check, gen.payloads(d, mode="accepted", extra_bytes=False), st.sampled_from(FORMATS), st.integers(0, 253), st.integers(0, 7),
-                max_examples=n_hyp, name="defs")
+                gen.payloads(d, mode="accepted", extra_bytes=False), max_examples=n_hyp, name="defs")
 
 
 def _lists(ctx: Ctx, item):
@@ -344,7 +366,9 @@ def replay(ctx: Ctx, case):
         data = bytes.fromhex(case["payload_hex"])
 
         def fake(check, *a, **k):
-            holder["out"] = check((int.from_bytes(data, "little"), len(data), []), case["format"], case["source"], case["priority"])
+            nxt = bytes.fromhex(case["next_hex"]) if case.get("next_hex") else None
+            holder["out"] = check((int.from_bytes(data, "little"), len(data), []), case["format"], case["source"], case["priority"],
+                                  (int.from_bytes(nxt, "little"), len(nxt), []) if nxt is not None else None)
         sub.hyp = fake
         _defs(sub, ([d.key], 1))
         return holder.get("out", [])
